@@ -71,6 +71,10 @@ fn next_port() -> u16 {
     })
 }
 
+/// A connect that the kernel does not complete at once (accept queue full: the SYN is dropped and
+/// retransmitted after 1 s) is given up after this much real time and reported, not waited out.
+const CONNECT_PATIENCE: Duration = Duration::from_millis(1500);
+
 pub struct NetWorld {
     pub rt: tokio::runtime::Runtime,
     pub addr: SocketAddr,
@@ -136,7 +140,12 @@ impl NetWorld {
     }
 
     pub fn connect(&self) -> Result<NetClient, String> {
-        let s = TcpStream::connect(self.addr).map_err(|e| format!("connect: {}", e))?;
+        let s = TcpStream::connect_timeout(&self.addr, CONNECT_PATIENCE).map_err(|e| {
+            if std::env::var("MC_TRACE_CONNECT").is_ok() {
+                eprintln!("connect failed: {} while {}", e, crate::watchdog::current().0);
+            }
+            format!("connect: {} (the server is not running meanwhile: the kernel's accept queue did not take the connection)", e)
+        })?;
         s.set_nonblocking(true).map_err(|e| e.to_string())?;
         s.set_nodelay(true).map_err(|e| e.to_string())?;
         let c = NetClient { s: Some(s), eof: false, reset: false, got: vec![] };
@@ -146,7 +155,12 @@ impl NetWorld {
 
     /// Connects without letting the server run (the connection sits in the accept queue).
     pub fn connect_nosettle(&self) -> Result<NetClient, String> {
-        let s = TcpStream::connect(self.addr).map_err(|e| format!("connect: {}", e))?;
+        let s = TcpStream::connect_timeout(&self.addr, CONNECT_PATIENCE).map_err(|e| {
+            if std::env::var("MC_TRACE_CONNECT").is_ok() {
+                eprintln!("connect failed: {} while {}", e, crate::watchdog::current().0);
+            }
+            format!("connect: {} (the server is not running meanwhile: the kernel's accept queue did not take the connection)", e)
+        })?;
         s.set_nonblocking(true).map_err(|e| e.to_string())?;
         s.set_nodelay(true).map_err(|e| e.to_string())?;
         Ok(NetClient { s: Some(s), eof: false, reset: false, got: vec![] })
